@@ -618,6 +618,53 @@ theorem krun_sim (c₁ c₂ : Cfg) : ∀ (prog : List KOp) {s t : KSt}, Sim s t 
 
 theorem fresh_init : Fresh KSt.init := fun i c h => by simp [KSt.init] at h
 
+/-! ### F. process exit (`kexit`): the destructor ledger at the end of the process -/
+
+/-- a keep step consults the configuration only for the collector -/
+theorem kstep_gc_only {c c' : Cfg} (h : c.gc = c'.gc) (op : KOp) (s : KSt) : kstep c op s = kstep c' op s := by
+  unfold kstep applyUpd gcTail
+  rw [h]
+
+theorem krun_gc_only {c c' : Cfg} (h : c.gc = c'.gc) : ∀ (prog : List KOp) (s : KSt), krun c prog s = krun c' prog s
+  | [], _ => rfl
+  | op :: rest, s => by
+    simp only [krun]
+    rw [kstep_gc_only h op s, krun_gc_only h rest]
+
+/-- the serial numbers given out do not depend on the configuration -/
+theorem used_config_independent (c₁ c₂ : Cfg) (prog : List KOp) :
+    (krun c₁ prog KSt.init).1.used = (krun c₂ prog KSt.init).1.used :=
+  (krun_sim c₁ c₂ prog (Sim.refl _) fresh_init fresh_init).2.used
+
+theorem filter_not_contains_nil (xs : List Int) : xs.filter (fun i => !(([] : List Int).contains i)) = xs := by
+  induction xs with
+  | nil => rfl
+  | cons x xs ih => simp
+
+/-- with the collector, every object ever made has been finalised when the process has ended (`GC_Del` sweeps the rest) -/
+theorem endLedger_gc {c : Cfg} (h : c.gc = true) (prog : List KOp) :
+    endLedger c prog = (krun c prog KSt.init).1.used := by
+  unfold endLedger kexit ledger
+  rw [if_pos h]
+  exact filter_not_contains_nil _
+
+/-- without it, only what the program deleted itself -/
+theorem endLedger_ngc {c : Cfg} (h : c.gc = false) (prog : List KOp) :
+    endLedger c prog = ledger (krun ngcCfg prog KSt.init).1 := by
+  unfold endLedger kexit
+  rw [if_neg (by simp [h])]
+  rw [krun_gc_only (c := c) (c' := ngcCfg) (by rw [h]; rfl)]
+
+theorem endLedger_of_releasesAll (c : Cfg) (prog : List KOp) (h : ReleasesAll prog) :
+    endLedger c prog = (krun ngcCfg prog KSt.init).1.used := by
+  cases hg : c.gc
+  · rw [endLedger_ngc hg]
+    unfold ledger
+    rw [h]
+    exact filter_not_contains_nil _
+  · rw [endLedger_gc hg, used_config_independent c ngcCfg]
+
+
 end Cello.Config.Keep
 
 namespace Cello.Config
